@@ -15,6 +15,7 @@ import (
 	"github.com/jacobsa/crypto/cmac"
 
 	"verifharness/internal/cases"
+	"verifharness/internal/collide"
 	"verifharness/internal/cq"
 	"verifharness/internal/framefmt"
 	"verifharness/internal/micforge"
@@ -410,6 +411,16 @@ func family(s *cases.Set, r *cq.RNG, p lorawan.PHYPayload, up bool, v lorawan.MA
 		one(p, v, conf, dr, ch, fk, fk, "skey=fkey")
 		one(p, v, conf, dr, ch, sk, fk, "keys-swapped")
 		one(p, otherVer(v), conf, dr, ch, fk, sk, "other-version")
+		// keys that differ from the base key but agree with it under a cheap digest (internal/collide)
+		for _, pr := range collide.For(fk) {
+			one(p, v, conf, dr, ch, lorawan.AES128Key(pr.K2), sk, "fkey-collides-"+pr.Name)
+		}
+		for _, pr := range collide.For(sk) {
+			if pr.Name == "crc32-ieee+castagnoli+koopman" || pr.Name == "first15bytes" || pr.Name == "xorfold8/4/2/1+bytesum" {
+				one(p, v, conf, dr, ch, fk, lorawan.AES128Key(pr.K2), "skey-collides-"+pr.Name)
+			}
+		}
+		one(p, v, conf, dr, ch, fk, sk, "base-after-colliding-keys")
 		// MICs that are correct under a related formula of the library: all must be judged by the model
 		rel := func(what string, f func(c *lorawan.PHYPayload) error) {
 			c := p
@@ -465,6 +476,10 @@ func family(s *cases.Set, r *cq.RNG, p lorawan.PHYPayload, up bool, v lorawan.MA
 		one(p, v, conf+0x10000, sk, "conf+2^16")
 		one(p, v, conf, zero, "skey-zero")
 		one(p, otherVer(v), conf, sk, "other-version")
+		for _, pr := range collide.For(sk) {
+			one(p, v, conf, lorawan.AES128Key(pr.K2), "skey-collides-"+pr.Name)
+		}
+		one(p, v, conf, sk, "base-after-colliding-keys")
 		rel := func(what string, f func(c *lorawan.PHYPayload) error) {
 			c := p
 			if f(&c) == nil {
@@ -573,7 +588,7 @@ func main() {
 	r := cq.NewRNG(seed)
 	nr = cq.NewRNG(seed ^ 0x9e3779b97f4a7c15)
 	s := cases.New("C02", dir, "LW.Corr.C02",
-		"RFC 4493 examples 1-4 and FIPS-197 C.1 first; then data frames (framefmt.DataFrame) whose MIC message length is cycled over 1..16 CMAC blocks (FRMPayload length chosen for it), FCnt with high bits in 70%, ConfFCnt with high bits in 70%, ACK alternating, both MAC versions, txDR/txCh cycled over all byte values, random/degenerate keys, carried MIC = valid / random / one bit flipped / first half changed / second half changed; validate also called with the other direction's function; MHDR Major drawn from 0..3; in a quarter of the frames the FRMPayload / FOpts elements are of a foreign Payload type (framefmt.Opaque, mixed [Opaque, DataPayload], a clocksync.Command on port 202); malformed: nil MACPayload, wrong payload type, unencodable frame (16-byte FOpts, MAC command on port > 0). Special MIC values: frames CONSTRUCTED (internal/micforge: CMAC inverted in its last block, which lies inside the FRMPayload; 1.1 uplink by a 2^16 search for the second half) so that their correct MIC is 00000000, ffffffff, 00000001, the MIC of the previous case, 0000xxxx, xxxx0000 - for uplink/downlink x 1.0/1.1; Set must give that MIC and Validate of the frame carrying it must be true. History: unrelated library calls (internal/noise) before every compared call; neighbour families run back to back (a base call whose frame carries its valid MIC, then the same call with exactly one input changed - single FCnt bits 16, 31, one more high and one low bit, FCnt + 2^16, ConfFCnt + 1 / + 2^16, txDR, txCh, each key zeroed, keys equal, keys swapped, other version - the frame still carrying the base MIC, then the base call again), and MICs that are correct under a RELATED formula of the library (other version, downlink formula with either key, 1.0 / MICF form, keys swapped, neighbouring ConfFCnt/txDR/txCh, halves swapped, cmacF half twice), and a verdict family on ONE frame object (wrong keys, the same wrong keys again, the right keys; MIC never re-assigned), each an ordinary case compared with model and specification; after every Validate* call the frame must print and marshal as before (validate-changes-frame:); every compared call is repeated from 8 goroutines at once (ReplayConcurrently) and three times later in the process (reverse, same, shuffled order) and must give its first result. Cases are distinct by construction (random keys) except the repeated base calls.")
+		"RFC 4493 examples 1-4 and FIPS-197 C.1 first; then data frames (framefmt.DataFrame) whose MIC message length is cycled over 1..16 CMAC blocks (FRMPayload length chosen for it), FCnt with high bits in 70%, ConfFCnt with high bits in 70%, ACK alternating, both MAC versions, txDR/txCh cycled over all byte values, random/degenerate keys, carried MIC = valid / random / one bit flipped / first half changed / second half changed; validate also called with the other direction's function; MHDR Major drawn from 0..3; in a quarter of the frames the FRMPayload / FOpts elements are of a foreign Payload type (framefmt.Opaque, mixed [Opaque, DataPayload], a clocksync.Command on port 202); malformed: nil MACPayload, wrong payload type, unencodable frame (16-byte FOpts, MAC command on port > 0). Special MIC values: frames CONSTRUCTED (internal/micforge: CMAC inverted in its last block, which lies inside the FRMPayload; 1.1 uplink by a 2^16 search for the second half) so that their correct MIC is 00000000, ffffffff, 00000001, the MIC of the previous case, 0000xxxx, xxxx0000 - for uplink/downlink x 1.0/1.1; Set must give that MIC and Validate of the frame carrying it must be true. History: unrelated library calls (internal/noise) before every compared call; neighbour families run back to back (a base call whose frame carries its valid MIC, then the same call with exactly one input changed - single FCnt bits 16, 31, one more high and one low bit, FCnt + 2^16, ConfFCnt + 1 / + 2^16, txDR, txCh, each key zeroed, keys equal, keys swapped, other version, each key replaced by a DIFFERENT key that agrees with it under CRC-32 x3 / Adler-32 / byte sum / xor-folds / first 15 / first 8 / last 8 bytes (internal/collide) - the frame still carrying the base MIC, then the base call again), and MICs that are correct under a RELATED formula of the library (other version, downlink formula with either key, 1.0 / MICF form, keys swapped, neighbouring ConfFCnt/txDR/txCh, halves swapped, cmacF half twice), and a verdict family on ONE frame object (wrong keys, the same wrong keys again, the right keys; MIC never re-assigned), each an ordinary case compared with model and specification; after every Validate* call the frame must print and marshal as before (validate-changes-frame:); every compared call is repeated from 8 goroutines at once (ReplayConcurrently) and three times later in the process (reverse, same, shuffled order) and must give its first result. Cases are distinct by construction (random keys) except the repeated base calls.")
 	s.ShardSize = 60
 	n := 600
 	if thorough {
